@@ -715,7 +715,7 @@ impl BTree {
 //@|         || internal_full(old(pager), old(path)@.last().page.0, sep_key@),
 //@| decreases old(path)@.len(),
 //@prewrite "keys.push(k.to_vec());" => "keys.push(v_slice_to_vec(k));"
-//@preregex "keys\[mid\]\.clone\(\)" => "v_bytes_clone(&keys[mid])"
+//@preregex "(\w+)\[(\w+)\]\.clone\(\)" => "v_bytes_clone(&\1[\2])"
 //@prewrite "keys[..mid].to_vec()" => "v_keys_to_vec(&keys, 0, mid)"
 //@prewrite "keys[mid + 1..].to_vec()" => "v_keys_to_vec(&keys, mid + 1, keys.len())"
 //@prewrite "children[..mid + 1].to_vec()" => "v_children_to_vec(&children, 0, mid + 1)"
